@@ -1287,6 +1287,20 @@ class WorkerGateway(BaseGateway):
         item: tuple[Channel, tuple[str, str | None, str | None, dict[str, object]]],
     ) -> None:
         try:
+            self._executetask(item)
+        finally:
+            executetask_complete = getattr(self, "_executetask_complete", None)
+            if executetask_complete is not None:
+                # Indicate that this task has finished executing (however
+                # it ended), meaning that there is no possibility of it
+                # triggering a deadlock for the next spawn call.
+                executetask_complete.set()
+
+    def _executetask(
+        self,
+        item: tuple[Channel, tuple[str, str | None, str | None, dict[str, object]]],
+    ) -> None:
+        try:
             channel, (source, file_name, call_name, kwargs) = item
             loc: dict[str, Any] = {"channel": channel, "__name__": "__channelexec__"}
             self._trace(f"execution starts[{channel.id}]: {repr(source)[:50]}")
@@ -1314,11 +1328,6 @@ class WorkerGateway(BaseGateway):
                 channel.close(errortext)
                 return
         channel.close()
-        if self._executetask_complete is not None:
-            # Indicate that this task has finished executing, meaning
-            # that there is no possibility of it triggering a deadlock
-            # for the next spawn call.
-            self._executetask_complete.set()
 
 
 #
